@@ -1101,6 +1101,7 @@ fn replay(lines: &[String], nslots: usize, nctx: usize, plugin: &Option<String>)
     for (bi, line) in lines.iter().enumerate() {
         vkit::mark(bi);
         let beh: Value = serde_json::from_str(line).expect("behaviour json");
+        crate::xmodad::AllocTrace::begin();
         let mut w = World::new(nslots, nctx, mk_backend(plugin));
         let mut failed = None;
         let mut beh_known = false;
@@ -1132,6 +1133,8 @@ fn replay(lines: &[String], nslots: usize, nctx: usize, plugin: &Option<String>)
         if beh_known {
             known += 1;
         }
+        // a behaviour touched by the listed finding F2 keeps a context reference for good: not balanced, by that finding
+        crate::xmodad::AllocTrace::end(failed.is_none() && !beh_known);
         if let Some((si, msg, v)) = failed {
             failures.push(json!({"behaviour": bi, "step": si, "msg": msg, "class": &v[4..], "beh": beh}));
             if failures.len() >= 40 {
@@ -1210,9 +1213,11 @@ pub fn main(args: &[String]) {
     match mode {
         "replay" => {
             let lines = vkit::read_lines(&path);
+            crate::xmodad::AllocTrace::start_from_args(args);
             let (steps, failures, known) = replay(&lines, nslots, nctx, &plugin);
+            let at = crate::xmodad::AllocTrace::finish();
             let info = plugin.as_ref().map(|p| PluginFns::load(p).build_info).unwrap_or_default();
-            vkit::summary("obj-replay", lines.len(), steps, &failures, json!({"known_F2": known, "plugin": info}));
+            vkit::summary("obj-replay", lines.len(), steps, &failures, json!({"known_F2": known, "plugin": info, "alloc_trace_events": at}));
         }
         "trace" => {
             let lines = vkit::read_lines(&path);
